@@ -171,6 +171,7 @@ func runC15(c *Ctx) {
 	}
 	// (b) attribution through the streamer
 	runAttribution(c)
+	runReshaped(c)
 }
 
 // runAttribution: table-id re-announcements inside and across transactions, and mapper disagreements.
@@ -249,6 +250,62 @@ func runAttribution(c *Ctx) {
 			}
 		}
 	}
+}
+
+// runReshaped: one table id announced again and again for the SAME database.table, with table maps of different
+// shapes (the table was altered; the mapper still answers with the first shape).  A rows event whose column count
+// disagrees with the mapper's table must end the stream with an error - nothing of it may be delivered under the
+// mapper's column names - and until then everything is attributed as usual.
+func runReshaped(c *Ctx) {
+	r := c.Rng
+	for hi := 0; hi < c.N(12, 200); hi++ {
+		cfg := baseCfg(r, r.Intn(len(baseCfgs)))
+		o := histOpts{units: 3 + r.Intn(5), maxCols: 4, maxRows: 2, rotations: false, ignorables: false,
+			kindsOnly: []string{"txXid", "txCommit", "autoRows", "ddl"}}
+		h := genHistory(r, cfg, o)
+		if len(h.tables) < 2 {
+			continue
+		}
+		for i := range h.tables {
+			h.tables[i].id, h.tables[i].db, h.tables[i].name = 77, "shop", "orders"
+		}
+		for i := range h.events {
+			e := &h.events[i]
+			if e.kind == "tablemap" {
+				e.body = e.table.bodyVal()
+			} else if e.kind == "rows" {
+				e.body = e.rows.bodyVal(*e.table)
+			}
+		}
+		h.encode(c)
+		f0, o0 := startOf(h)
+		a := fullAttempt(h, c, f0, o0)
+		ir := compareAttempt(c, "C15", "reshaped", a, h.mapperVals(), true)
+		// the first rows event (with at least one row) of a table whose column count differs from the mapper's answer
+		n0 := len(h.tables[0].cols)
+		expectErr, same := false, true
+		for _, e := range h.events {
+			if e.kind == "rows" && len(e.table.cols) != n0 {
+				same = false
+				if len(e.rows.before)+len(e.rows.after) > 0 {
+					expectErr = true
+				}
+			}
+		}
+		c.R.Count(fmt.Sprintf("reshaped/tables%d/differs%v/rows%v", len(h.tables), !same, expectErr))
+		if expectErr && ir.outcome == "end" {
+			c.R.Add(vh.Mismatch{Kind: "spec", What: "reshaped: rows of a table map whose column count differs from the mapper's table were delivered instead of rejected",
+				Case: fmt.Sprintf("cfg=%s units=%v column counts=%v", cfg, h.kinds, colCounts(h.tables)), Impl: ir.outcome, InDomain: true})
+		}
+	}
+}
+
+func colCounts(ts []tableDef) []int {
+	out := make([]int, len(ts))
+	for i, t := range ts {
+		out[i] = len(t.cols)
+	}
+	return out
 }
 
 func containsTable(v vh.Val, db, name string) bool {
